@@ -1824,6 +1824,10 @@ _NP_FUNCS = {
     "zeros": _np_zeros,
     "empty": _np_zeros,
     "result_type": _np_result_type,
+    "add": lambda a, b, **k: exact(a) + exact(b),
+    "subtract": lambda a, b, **k: exact(a) - exact(b),
+    "multiply": lambda a, b, **k: exact(a) * exact(b),
+    "negative": lambda a, **k: -exact(a),
     "intersect1d": lambda *a, **k: _np_intersect1d(*a, **k),
     "kron": _np_kron,
     "ones": _np_ones,
